@@ -311,3 +311,7 @@ def run(ctx):
     synthesised_values(ctx, 'R04.5')
     from .c03 import no_tautological_guards
     no_tautological_guards(ctx, 'R04.7', ['nbdime.merging.'])
+
+
+from .extra import with_extra  # noqa: E402
+run = with_extra('C04', run)
